@@ -200,7 +200,7 @@ TRUSTED = [
     "lxml's ElementTreeContentHandler + etree.tostring are not modelled: the assumption about them is the explicit hypothesis `LxmlBuildsSaxTree` of writers_denote_same_tree_partial / serializers_denote_same_tree(_FN)_partial (what lxml builds and prints reads back as the tree the SAX calls denote); op writer.lxml samples exactly this statement on the real LxmlEventWriter",
     "metadata → events: EventGenerator is the binding layer's model Bind/Gen.lean (C01's files, tied to the code by C01's ops and, composed with my writer, by op ser.compose on the exact text of XmlSerializer.render); builders.py is not modelled here: Spec/ObjectTree.lean (declarative reading of the metadata, no theorems) is compared with XmlSerializer.render on random binding models (op ser.object)",
     "serialize_*_FN_partial rest on C01's theorem bind_generate_FN (the abstract writer of Bind/Write.lean accepts the generated events: gives `generate = ok`, the coverage of every payload and attrsFollow) and on my provenance induction (Proofs/GenLex.lean, every universe with ctxLexOK); their hypotheses are input-level: ctxOK/valOKI (C01; compared with an independent description by C01's op c01.valFN), ctxLexOK/valLexOK/valExactOK (Spec/BindLex.lean; compared with an independent transcription by op ser.frag, which also checks the conclusions on the REAL serializer). Outside C01's fragments serialize_*_partial keep the per-case hypothesis eventsOK on `generate`'s output (op ser.hyps)",
-    "xsi:type VALUES: serialize_says_metadata(_FN)_partial exclude them (valExactOK / eventsPlain); what is proved about them is the text-level tree (serialize_denotes_sax_tree_FN_partial) and qname_value_resolves (prefix bound to the namespace in the element's map); that they resolve in the document's scope to the class the metadata prescribes is checked by oracle c03.frag on the real output, not proved",
+    "xsi:type VALUES: serialize_says_metadata(_FN)_partial exclude them (valExactOK / eventsPlain); what is proved about them is the text-level tree (serialize_denotes_sax_tree_FN_partial) and, for one element, qname_value_resolves_in_scope_partial (the text resolves, in the namespace scope the XML reader has for the written start tag, to the QName of the event, unless the namespace is the default of the map: findings c03-qname-default-*); threading this through the whole document is open, there oracle c03.frag checks the resolved markers of the real output against the exported metadata",
     "`NsEnv.isNcnamePy` (namespaces.is_ncname inside EventHandler.validate_prefixes) is instantiated with `ncnamePyApprox`: exact on ASCII, every non-ASCII character counted as str.isalpha; the generators use the non-ASCII prefixes U+00AA and U+00E9 only (both letters for Python)",
     "CPython dict order / str.replace / str.partition / str(int) are modelled by hand (Xml/Dict.lean, Py/Basic.lean)",
 ]
